@@ -243,7 +243,9 @@ func WalkMPT(root []byte, get func(key []byte) []byte, wantOrigin int64) *WalkRe
 }
 
 func walk(key []byte, get func([]byte) []byte, wantOrigin int64, r *WalkResult, depth int) *Term {
-	if depth > 400 {
+	// a corrupted store can hold cycles: bound the walk (depth and total nodes)
+	if depth > 400 || r.Nodes > 200000 {
+		r.KeysOK = false
 		return &Term{T: "B"}
 	}
 	data := get(key)
